@@ -133,18 +133,21 @@ func c12FaultClass(o *sfOpRec) string {
 }
 
 type c12Result struct {
-	K        int
-	Fault    string // op record of the failed operation
-	Class    string
-	Step     int
-	StepKind string
-	Viol     []c12Viol `json:",omitempty"`
-	Demanded int       // number of later changes whose presence was demanded
-	FullEq   bool      // the reopened state equals the model's final state altogether
-	NoFault  bool      // index beyond the last operation
+	K            int
+	Fault        string // op record of the failed operation
+	Class        string
+	Step         int
+	StepKind     string
+	Viol         []c12Viol `json:",omitempty"`
+	Demanded     int       // number of later changes whose presence was demanded
+	DemandedSoon int       // number of changes demanded at the first restart after the fault
+	FullEq       bool      // the reopened state equals the model's final state altogether
+	NoFault      bool      // index beyond the last operation
 }
 
 type c12Viol struct{ Key, Msg string }
+
+var c12Debug bool
 
 // c12RunOne runs the history with fault point k inside a bubble. k < 0 = no fault (dry run).
 func c12RunOne(t *testing.T, base string, cs c12Case, seed int64, ci, k int) (res c12Result, nOps int) {
@@ -175,6 +178,14 @@ func c12RunOne(t *testing.T, base string, cs c12Case, seed int64, ci, k int) (re
 		synctest.Wait()
 	})
 	nOps = hook.nCrashOp
+	if c12Debug {
+		for _, o := range hook.ops {
+			fmt.Printf("op %s step=%d\n", o.String(), o.Step)
+		}
+		for st, rec := range run.RestartRecovered {
+			fmt.Printf("restart at step %d recovered %s expected %s\n", st, rec, run.RestartExpected[st])
+		}
+	}
 	if k < 0 {
 		return
 	}
@@ -212,6 +223,78 @@ func c12RunOne(t *testing.T, base string, cs c12Case, seed int64, ci, k int) (re
 			left = true
 		}
 	}
+	// (1) what the statement says: once the fault has cleared, LATER changes are recorded.
+	// Checked at the first restart after the fault: every member / clock whose last change
+	// before that restart was made by a step after the step of the fault must be there.
+	if !left {
+		first := -1
+		for st := range run.RestartRecovered {
+			if st > res.Step && (first < 0 || st < first) {
+				first = st
+			}
+		}
+		if first > 0 {
+			rec, exp := run.RestartRecovered[first], run.RestartExpected[first]
+			var miss []string
+			lastA := map[string]int{}
+			lc, le, lq := -1, -1, -1
+			for i := 0; i < first && i < len(run.Steps); i++ {
+				s := run.Steps[i]
+				names := map[string]bool{}
+				for n := range s.Pre.Alive {
+					names[n] = true
+				}
+				for n := range s.Post.Alive {
+					names[n] = true
+				}
+				for n := range names {
+					a, aok := s.Pre.Alive[n]
+					b, bok := s.Post.Alive[n]
+					if aok != bok || a != b {
+						lastA[n] = i
+					}
+				}
+				if s.Pre.Clock != s.Post.Clock {
+					lc = i
+				}
+				if s.Pre.EventClock != s.Post.EventClock {
+					le = i
+				}
+				if s.Pre.QueryClock != s.Post.QueryClock {
+					lq = i
+				}
+			}
+			for n, i := range lastA {
+				if i <= res.Step {
+					continue
+				}
+				res.DemandedSoon++
+				want, wok := exp.Alive[n]
+				g, gok := rec.Alive[n]
+				if wok != gok || want != g {
+					miss = append(miss, fmt.Sprintf("member %q changed by step %d (%s): restart recovered %q/%v, should be %q/%v", c10Trunc(n, 60), i, run.Steps[i].Kind, g, gok, want, wok))
+				}
+			}
+			ck := func(name string, last int, g, want uint64) {
+				if last > res.Step {
+					res.DemandedSoon++
+					if g != want {
+						miss = append(miss, fmt.Sprintf("%s changed by step %d (%s): restart recovered %d, should be %d", name, last, run.Steps[last].Kind, g, want))
+					}
+				}
+			}
+			ck("member clock", lc, rec.Clock, exp.Clock)
+			ck("event clock", le, rec.EventClock, exp.EventClock)
+			ck("query clock", lq, rec.QueryClock, exp.QueryClock)
+			sort.Strings(miss)
+			if len(miss) > 0 {
+				add("change-after-fault-not-recorded", fmt.Sprintf("%s during step %d (%s); the node restarted at step %d and changes made by steps after the fault are missing: %s",
+					res.Fault, res.Step, res.StepKind, first, strings.Join(miss, " ; ")))
+			}
+		}
+	}
+	// (2) whatever happened in between, changes made 31 s or more after the fault (the documented
+	// recovery interval is 30 s) must be there after the final clean shutdown
 	from := -1
 	for i := res.Step + 1; i < len(run.Steps); i++ {
 		if run.Steps[i].At.Sub(hook.injectedAt) >= 31*time.Second {
@@ -325,6 +408,18 @@ func TestC12(t *testing.T) {
 		return
 	}
 	r := evid.Start(t, "C12", "fault_enumeration")
+	if one := os.Getenv("VERIF_C12_ONE"); one != "" {
+		// debugging aid: VERIF_C12_ONE=<case>:<fault point> runs that single run in this process and prints its file operations
+		var ci, k int
+		fmt.Sscanf(one, "%d:%d", &ci, &k)
+		cs := c12Gen(r.CaseRand("history", ci))
+		c12Debug = true
+		res, _ := c12RunOne(t, t.TempDir(), cs, r.Seed, ci, k)
+		b, _ := json.MarshalIndent(res, "", " ")
+		fmt.Printf("history: %s\nresult: %s\n", c10HistoryString(cs.Ops), b)
+		t.Errorf("debug run (output above is shown because the test is marked failed)")
+		return
+	}
 	base, err := os.MkdirTemp("/verif/.run", "c12-")
 	if err != nil {
 		base = t.TempDir()
@@ -373,6 +468,7 @@ func TestC12(t *testing.T) {
 						r.Count("fault_points_run", 1)
 						r.Count("fault_at_"+res.Class, 1)
 						r.Count("later_changes_demanded", res.Demanded)
+						r.Count("changes_demanded_at_first_restart_after_fault", res.DemandedSoon)
 						if res.Demanded > 0 {
 							r.Count("runs_with_later_changes_demanded", 1)
 						}
